@@ -53,6 +53,7 @@ STRINGS = [b'""', b'"s"', b"'s'", b'"a b"', b'"it\'s"', b'"\\n"', b'"\\65\\066"'
            # long strings whose text starts with one / two line breaks (the first one is not part of the value)
            b'[[\n\nx]]', b'[==[\r\n\ny]==]', b'[[\n]]', b'[[\n\n]]',
            # levelled long strings whose text ends in a bracket (or bracket + equals): the closing bracket must keep its level
+           b'"\x10\x11 ok"', b"'\x7f'", b'"\x1f\x01"',
            b'[==[see items[1]]==]', b'[=[t[i]]=]', b'[==[x]=]==]', b'[=[]]=]', b'[==[a]]b]==]']
 
 
@@ -749,7 +750,9 @@ COMMENT_WORDS = [b'c', b'note', b'x=1', b'end', b'"q', b'[[', b']]', b'todo: fix
                  # backslash sequences (commented-out code, paths); the editor's tab separator `-->8`
                  b'print("a\\n")', b'c:\\pico\\x', b'\\1 \\g<0>', b'>8', b'>8 tab',
                  # raw vertical tab / form feed (P8SCII 11, 12: ordinary characters, but line ends to str.splitlines)
-                 b'a\x0bx=1', b'\x0c y=2 z()']
+                 b'a\x0bx=1', b'\x0c y=2 z()',
+                 # P8SCII 16-31 and 127 are glyphs (stored in .p8 files as non-ASCII characters) although below 128
+                 b'menu \x10 item', b'\x7f ring \x1b']
 
 
 def line_comment(ch):
